@@ -62,4 +62,43 @@ theorem mem_reach_lt {n : Nat} {args : List Obj} (hv : validArgs n args = true) 
   have := (List.all_eq_true.mp hv) r hr
   simpa using this
 
+/-- what a signature entry selects is a cell of an argument -/
+theorem sel_subset_reach (args : List Obj) (s : Nat × String) : ∀ r ∈ sel args s, r ∈ reach args := by
+  intro r hr
+  unfold sel at hr
+  cases ho : args[s.1]? with
+  | none => rw [ho] at hr; simp at hr
+  | some o =>
+    rw [ho] at hr
+    have hmem : o ∈ args := List.mem_of_getElem? ho
+    have hro : r ∈ o.refs := by
+      simp only at hr
+      split at hr
+      · exact hr
+      · simp only [Obj.refs, List.mem_map, List.mem_filter] at hr ⊢
+        obtain ⟨c, ⟨hc, _⟩, rfl⟩ := hr
+        exact ⟨c, hc, rfl⟩
+    unfold reach
+    exact List.mem_flatMap.mpr ⟨o, hmem, hro⟩
+
+theorem selAll_subset_reach (args : List Obj) (ss : List (Nat × String)) : ∀ r ∈ selAll args ss, r ∈ reach args := by
+  intro r hr
+  unfold selAll at hr
+  obtain ⟨s, _, hs⟩ := List.mem_flatMap.mp hr
+  exact sel_subset_reach args s r hs
+
+/-- whatever the signature: the result of a behaviour within it reaches only cells the call allocated and cells
+of the arguments -/
+theorem within_ret_bounded {s : Sig} {n : Nat} {args : List Obj} {b : Beh α}
+    (hw : b.within s n args = true) : ∀ r ∈ b.ret, (n ≤ r ∧ r < n + b.news.length) ∨ r ∈ reach args := by
+  unfold Beh.within at hw
+  simp only [Bool.and_eq_true] at hw
+  obtain ⟨_, hret⟩ := hw
+  intro r hr
+  have := (List.all_eq_true.mp hret) r hr
+  simp only [Bool.or_eq_true, Bool.and_eq_true, decide_eq_true_eq, List.contains_eq_mem] at this
+  rcases this with h | h
+  · exact Or.inl h
+  · exact Or.inr (selAll_subset_reach args s.shares r h)
+
 end Reamber.Effects
